@@ -80,6 +80,7 @@ let () =
       let h = int_of_string hstr in
       let (args, spec) = match List.rev rest with
         | sp :: ra -> (List.rev ra, sp) | [] -> failwith "missing dump spec" in
+      if not (Hashtbl.mem hs h) then Hashtbl.replace hs h (new_state fempty);
       let st () = Hashtbl.find hs h in
       let apply o = let (s', a) = step (st ()) o in Hashtbl.replace hs h s'; str_answer a in
       let res = match code, args with
@@ -112,7 +113,8 @@ let () =
           Hashtbl.replace hs h s'; Printf.sprintf "r%d" (label_of c)
         | "CP", [nh] -> Hashtbl.replace hs (int_of_string nh) (copy (st ())); "-"
         | "NW", [nh; lab] ->
-          let c = Hashtbl.find contents (int_of_string lab) in
+          (* a label the model never produced can only follow an earlier model/impl mismatch *)
+          let c = (match Hashtbl.find_opt contents (int_of_string lab) with Some c -> c | None -> fempty) in
           Hashtbl.replace hs (int_of_string nh) (new_state c); "-"
         | "DU", [] -> "-"
         | _ -> failwith ("bad line: " ^ String.concat " " (hstr :: code :: rest)) in
